@@ -173,6 +173,16 @@ func classMatch(class string, c byte) bool {
 	panic("class " + class)
 }
 
+// caselessEqual: `caseless` compares the bytes the literal is long with the
+// literal under Unicode simple case folding (the standard library's
+// strings.EqualFold - not vore code). The documents do not say which letters fold;
+// this is what callers observe: 'é' finds 'É', and folds that change the byte
+// length ('ſ' / 's', the Kelvin sign) are never seen because the text segment
+// compared has the literal's length.
+func caselessEqual(seg, lit string) bool {
+	return strings.EqualFold(seg, lit)
+}
+
 func asciiLower(s string) string {
 	b := []byte(s)
 	for i, c := range b {
@@ -228,7 +238,7 @@ func (m *Model) itemMatch(it Item, pos int) (int, bool) {
 			return 0, false
 		}
 		seg := t[pos : pos+len(it.S)]
-		if seg == it.S || (it.Caseless && asciiLower(seg) == asciiLower(it.S)) {
+		if seg == it.S || (it.Caseless && caselessEqual(seg, it.S)) {
 			return pos + len(it.S), true
 		}
 		return 0, false
@@ -268,7 +278,7 @@ func (m *Model) match(n *Node, pos int, e Env, k cont) bool {
 			return false
 		}
 		seg := t[pos : pos+l]
-		eq := seg == n.S || (n.Caseless && asciiLower(seg) == asciiLower(n.S))
+		eq := seg == n.S || (n.Caseless && caselessEqual(seg, n.S))
 		if eq != n.Not {
 			return k(pos+l, e)
 		}
